@@ -246,6 +246,15 @@ def gen_cases(rng, tier):
               sp.append(x)
       case["combined"] = {"S": rng.sample(sp, rng.randint(1, len(sp))), "exclude": rng.random() < 0.5, "tseed": rng.randrange(1 << 30)}
       case["listing"] = False
+    if i % 31 == 9:
+      # a key that itself holds a ':' (a species label such as 'Fe:oct' can only arrive through --add-item / additional=,
+      # no file can spell it): the command line and the API, given the same (section, key, value), must agree
+      a_ = spec.label(rng, [], 1.0, 3)
+      key = rng.choice(["%s:oct-%s" % (a_, a_), "%s-%s:x" % (a_, a_), "%s:a-%s:b" % (a_, a_)])
+      case = {"model": m, "ops": [{"op": "add", "section": "Pair", "key": key, "value": "as.constant %s" % spec.fnum(spec.rfloat(rng, 1, 9))}],
+              "route": "main", "listing": False, "colon_key": True}
+      cases.append(case)
+      continue
     if route in ("main", "api") and i % 5 == 4:
       # feature interaction: operations that address [Variables] itself, and an item written as ${VAR} that is
       # overridden with exactly the text it currently expands to ("frozen") while VAR is changed or removed
@@ -527,7 +536,26 @@ def run_freeze(case, ctx, items):
 NUMRE = re.compile(r"[-+]?(\d+\.?\d*|\.\d+)([eE][-+]?\d+)?")
 
 
+def run_colon_key(case, ctx):
+  m, ops = case["model"], case["ops"]
+  text = emit.items_text(emit.model_items(m))
+  ctx.cls("key_containing_colon_cli_vs_api")
+  a = outcome(routes.potable_main(["@IN", "@OUT"] + cli_args(ops), text))
+  b = api_outcome(text, ops)
+  ctx.count("differentials")
+  if a[0] != b[0] or (a[0] == "ok" and not same_output(m["target"], a[1], b[1])):
+    ctx.violation("edit_differs", "--add-item %r: command line -> %s (%s), the same (section, key, value) through additional= -> %s (%s)" % (
+      cli_args(ops)[1], a[0], str(a[1])[:120] if a[0] != "ok" else "%d bytes" % len(a[1]), b[0], str(b[1])[:120] if b[0] != "ok" else "%d bytes" % len(b[1])),
+      what="edit_differs", mech="key_with_colon")
+    return
+  # and the added pair is really there (unless the target has no place for it)
+  ctx.nontrivial(a[0] == "ok")
+
+
 def run_case(case, ctx):
+  if case.get("colon_key"):
+    ctx.cls("route:main")
+    return run_colon_key(case, ctx)
   m, ops, route = case["model"], case["ops"], case["route"]
   if case.get("freeze"):
     ctx.cls("route:" + route)
